@@ -163,7 +163,7 @@ def run(ctx):
     fam, sing, masks4, ntri, nspd, nonprefix, sample = case_stats(cases)
     ctx.log("LinSolve: %d cases %s" % (res.json_count, json.dumps(fam, sort_keys=True)))
     # vacuity: the interesting classes really occur
-    need = ["g1", "g2", "g3", "pd3", "p44", "q44", "tr3", "tr4", "spd1", "spd2", "spd3", "spd4"]
+    need = ["g1", "g2", "g3", "pd3", "p44", "q44", "tr3", "tr4", "sym3", "sym4", "spd1", "spd2", "spd3", "spd4"]
     missing = [k for k in need if fam.get(k, 0) == 0]
     if missing or fam.get("p44") != 24 * 81 or fam.get("pd3") != 48 or fam.get("g2") != 625:
         raise vlib.Infra("vacuity: families missing or incomplete: %s %s" % (missing, fam))
@@ -272,7 +272,7 @@ MANIFEST = {
                  "checked by TLC and bound to the code through its terminal states; recorded calls validated by a trace spec",
     "text": "TLC enumerates all integer matrices with entries -2..2 up to 2x2, all (thorough) or a seeded slice (quick) of the "
             "262144 3x3 matrices over {-1,0,1,2}, every 4x4 permutation x {1,2,-1}-diagonal matrix with and without a dense "
-            "perturbation (every pivot order), triangular and SPD families, verifies A adj(A) = det(A) I and Cramer's rule on "
+            "perturbation (every pivot order), triangular, symmetric indefinite and SPD families, verifies A adj(A) = det(A) I and Cramer's rule on "
             "each, and prints determinant, inverse, solutions, condition proxy and singularity class as exact rationals. The "
             "driver runs matrixInverse (default, PositiveDefinite, UpperTriangular, every Submatrix mask, fresh/dirty/re-used "
             "InSitu buffers), gaussJordan (generic and DenseFloat64 variants, masks, triangular, right-hand sides e_k, ones, "
